@@ -229,6 +229,20 @@ def units(ctx):
                     d.state_model[Ls[0]] = d.state_model[Ls[0]] + Lc[0]
             if nsen and rep % 2 == 1:
                 gen.unsort_readings(d)
+            if rep == 1 and (nc, nk) == (0, 1) and not d.transcend:
+                # a physical constant far below 1e-12 as a FLOAT coefficient of a high power (radiative cooling, 9e-13 * T^4): small
+                # coefficient, sizeable term
+                s0, s1 = d.state[0], d.state[-1]
+                d._force_cse = True
+                d.state_model[s0] = d.state_model[s0] + sympy.Float(9.0e-13) * s0 ** 6 * s1 ** 6
+                for rd in d.sensors.values():
+                    r0 = sorted(rd)[0]
+                    rd[r0] = rd[r0] + sympy.Float(4.5e-13) * s0 ** 6 * s1 ** 6
+                    break
+            if nc and rep == 1 and not d.transcend:
+                # a control that enters quadratically (thrust ~ rpm^2): its Jacobian column is 2*u*..., not the linear coefficient
+                u0 = sorted(d.control, key=lambda x: x.name)[0]
+                d.state_model[d.state[-1]] = d.state_model[d.state[-1]] + d.dt * u0 ** 2 * (1 + d.state[0]) + u0 ** 3 / 8
             if d.sensors and "shared0" not in d.sensors:
                 # every filter generated in this process has a sensor of the SAME name (with its own readings and expressions)
                 first = sorted(d.sensors)[0]
@@ -245,6 +259,9 @@ def run(ctx):
     for i, d in enumerate(units(ctx)):
         process, sensor = eh.make_noises(ctx.rng, d)
         pts = [gen.gen_point(ctx.rng, d) for _ in range(3 if ctx.quick else 8)]
+        if any(sympy.sympify(e).atoms(sympy.Float) for e in d.state_model.values()):
+            # a point where the high powers make the tiny coefficient's term sizeable
+            pts.append({"dt": pts[0]["dt"], "cal": pts[0]["cal"], "control": dict(pts[0]["control"]), "state": {n_: F(6) for n_ in pts[0]["state"]}})
         cal = pts[0]["cal"]
         pts = [dict(p, cal=cal) for p in pts]
         # one process noise and one reading noise with more significant digits than any short literal carries
